@@ -227,6 +227,6 @@ pub fn def() -> PropDef {
             "tokio's cooperative budget makes a never-blocking async loop yield, so a poll-count budget detects non-termination deterministically",
             "single-threaded histories: no concurrent membership change during a route",
         ],
-        subs: || vec![Box::new(Sub::<Case> { name: "history", cases: |t| t.scale(60_000, 20), strategy, exec })],
+        subs: || vec![Box::new(Sub::<Case> { name: "history", cases: |t| t.scale(200_000, 8), strategy, exec })],
     }
 }
